@@ -237,3 +237,25 @@ Definition assemble_range (unit : Z) (instants : list Z) : Z * Z :=
   let hi := if (hi <? 0)%Z then unit else hi in
   let hi := if (hi <? lo + unit)%Z then (lo + unit)%Z else hi in
   (lo, hi).
+
+(** * Refreshing <output-dir>/latest when an earlier run left one behind
+    (prepareDirs: os.Remove(alias), an error unless IsNotExist; then
+    os.Symlink, whose failure is only a warning).  os.Remove removes a
+    symbolic link itself, whether or not its target still exists. *)
+Inductive alias_state :=
+| ANone                      (* nothing there *)
+| ALink (text : path)        (* a symbolic link, dangling or not *)
+| AOther.                    (* something os.Remove refuses (a non-empty directory) *)
+
+Definition remove_alias (s : alias_state) : option alias_state :=
+  match s with
+  | AOther => None           (* prepareDirs returns the error *)
+  | _ => Some ANone
+  end.
+Definition make_link (s : alias_state) (t : path) : alias_state :=
+  match s with
+  | ANone => ALink t
+  | _ => s                   (* EEXIST: a warning, the old entry stays *)
+  end.
+Definition refresh_alias (before : alias_state) (d : dirs) : option alias_state :=
+  option_map (fun s => make_link s (d_target d)) (remove_alias before).
